@@ -191,8 +191,8 @@ def sig_matches(pattern, sig):
 
 
 def load_known(prop_id):
-    """Entries of known_findings.json (plus, while a check is being developed, of
-    known_findings.d/<id>.json) for one property.  Read-only at run time."""
+    """Entries of known_findings.json for one property (a per-property file known_findings.d/<id>.json is read as well
+    if present: used while a check is being developed, merged by tools/merge_known.py).  Read-only at run time."""
     out = []
     paths = [KNOWN_FINDINGS, os.path.join(VERIF, "known_findings.d", "%s.json" % prop_id)]
     for path in paths:
